@@ -138,6 +138,9 @@ func zzIngress(name string, created int64, prefix string) *networking.Ingress {
 	ing := &networking.Ingress{ObjectMeta: metav1.ObjectMeta{
 		Namespace: "default", Name: name, CreationTimestamp: metav1.Time{Time: time.Unix(1600000000+created, 0)},
 	}}
+	if prefix == "none" {
+		return ing
+	}
 	if nd.Param("ACME", 1) == 1 && nd.Bool(prefix+".acme") {
 		ing.Annotations = map[string]string{"ingress.kubernetes.io/cert-signer": "acme"}
 	}
@@ -166,6 +169,7 @@ type zzSystem struct {
 	tracker convtypes.Tracker
 	hc      haproxy.Config
 	cache   *zzCache
+	drain   bool
 }
 
 func zzNewSystem(w *zzWorld) *zzSystem {
@@ -181,7 +185,13 @@ func (s *zzSystem) converter(changed *convtypes.ChangedObjects) *converter {
 		Logger:           zzLogger{},
 		Tracker:          s.tracker,
 		DynamicConfig:    &convtypes.DynamicConfig{},
-		DefaultConfig:    func() map[string]string { return map[string]string{"initial-weight": "100"} },
+		DefaultConfig: func() map[string]string {
+			d := map[string]string{"initial-weight": "100"}
+			if s.drain {
+				d["drain-support"] = "true"
+			}
+			return d
+		},
 		DefaultCrtSecret: "system/default",
 		AnnotationPrefix: []string{"ingress.kubernetes.io"},
 	}, s.hc, changed).(*converter)
